@@ -50,6 +50,30 @@ contract("lib:round", trusted=True, pos_params=["x", "n"], pure=True, result="an
 global_const("round", ("contract", "lib:round"))
 contract(J + "JUnitReporter.show_skipped", inline=True)
 
+# -- the entry of a failed / errored scenario names the responsible step whenever one was found -------------------------
+from pyvc.contracts import ghost as _ghost
+_ghost("jd_step", "val")        # the step the last problem description was written for
+_ghost("jd_n", "int")           # number of step descriptions written
+contract("abs:JUnitReporter.describe_step", trusted=True, params={"self": "ref:JUnitReporter"}, pos_params=["self", "step"],
+         modifies=["G_jd_step", "G_jd_n"], result="str",
+         ensures={"recorded": "G_jd_step is step and G_jd_n == old(G_jd_n) + 1"},
+         doc="describe_step(step): the step's keyword, name, table/text (rendering: bounded); ghost: which step was described")
+contract("lib:traceback.format_tb", trusted=True, pos_params=["tb"], fresh_result="list:str", doc="traceback.format_tb (A-lib)")
+contract("abs:_text", trusted=True, pos_params=["x"], pure=True, result="str", doc="six.text_type(x)")
+contract(J + "JUnitReporter._make_problem_description_for", props=P,
+         params={"self": "ref:JUnitReporter", "element_name": "str", "scenario": "ref:Scenario", "step": "opt:ref:Step"},
+         self_classes=["JUnitReporter"], result="ref:XmlElement",
+         callsites={"ElementTree.Element": "new:XmlElement", "xml_element.set": "abs:XmlElement.set", "xml_element.append": "abs:XmlElement.append",
+                    "CDATA": "abs:CDATA", "self.describe_step": "abs:JUnitReporter.describe_step", "_text": "abs:_text",
+                    "traceback.format_tb": "lib:traceback.format_tb"},
+         modifies=["G_jd_step", "G_jd_n"],
+         ensures={"an-element-of-the-requested-kind": "is_fresh(result) and result.tag == element_name",
+                  "a-found-step-is-always-the-one-described-whether-or-not-it-carries-an-exception-object":
+                      "implies(not is_none(step), G_jd_n == old(G_jd_n) + 1 and G_jd_step is step)",
+                  "without-a-step-no-step-is-described": "implies(is_none(step), G_jd_n == old(G_jd_n))"},
+         doc="C16: 'a failed or errored scenario carries an entry naming the responsible step or hook'; the hook/unknown "
+             "branch is only for scenarios in which no step has a failing status")
+
 # -- the first step with one of the given statuses -------------------------------------------------------------
 contract(J + "JUnitReporter.select_step_with_any_status", props=P,
          params={"desired_statuses": "tuple:Status", "steps": "seq:ref:Step"}, result="opt:ref:Step", pure=True,
@@ -172,7 +196,9 @@ prop("C16", level="other", bounded=[],
                  "most one failure for an undefined/pending step); a failed or errored scenario always carries an entry; hidden "
                  "scenarios move no counter; the walk over rules, outlines (rows) and scenarios keeps counters and collected "
                  "entries in step (ghost census of the collected entries); select_step_with_any_status returns the first step "
-                 "with one of the statuses. Bounded: well-formedness/escaping of the serialised XML, which step the entry names, "
+                 "with one of the statuses; the problem description is written for the selected step whenever one was found "
+                 "(whether or not it carries an exception object) and falls back to the hook/unknown text only without a step. "
+                 "Bounded: well-formedness/escaping of the serialised XML, the rendered text, "
                  "JUnitReporter.feature (file writing, suite attributes)",
      technique="contract-based deductive verification (own VC generator over the real ASTs, z3/cvc5) of the counters; bounded "
                "run-time contract stand-in with an independent XML parser for well-formedness",
